@@ -25,8 +25,8 @@ Bytes machines (regex_bytes, regex_bytes_promote) — how the statement is read,
             coincides with ordinary character semantics, which is then the oracle — provided the
             expression has no alternation (greenery merges `S|.` into `.`, which removes S from the
             automaton's alphabet, so the approximation is then a different one).                   [exact]
-            On any other input, or with an alternation, only the weak predicate (terminates; stored bytes == consumed prefix;
-            NonTerminal <=> not terminal) is checked.                                                [weak]
+            On any other input, or with an alternation, only the weak predicate (terminates; stored
+            bytes == consumed prefix; NonTerminal <=> not terminal) is checked.                     [weak]
   (mode bytes-fsm: regex_bytes constructed from a greenery.fsm over exactly the expression's symbols, without
             the anything-else symbol — no state has a wildcard edge at all; profiles ascii / mb, exact.)
   refuse    a multi-byte symbol together with a second distinct symbol: regex_bytes documents that it
@@ -49,7 +49,7 @@ RULE = ('cases = (machine class str|bytes|promote|bytes-fsm, regex AST, input, c
         'the size bound over atoms {a, b, ., [^a], [ab]} with *, +, ?, {2}, {1,2}, {2,}, cat, alt  x  every string over '
         '{a,b,c} up to the length bound, on cpppo.regex (input in one piece) and on cpppo.regex_bytes (one symbol per '
         'chunk). Random tier: Hypothesis ASTs up to 12 nodes over {a,b,c,π,€} (str) or one of the bytes '
-        'profiles, inputs up to 20 symbols produced by a walk that mostly follows viable symbols of the reference '
+        'profiles (also regex_bytes built from a greenery.fsm without an anything-else symbol), inputs up to 24 symbols produced by a walk that mostly follows viable symbols of the reference '
         'derivative and then leaves the language, random chunkings (cuts inside multi-byte characters included). '
         'non-trivial = the expected consumed prefix is a proper non-empty prefix of the input, or a viable but '
         'non-accepting prefix extends beyond the longest accepting one')
@@ -60,7 +60,8 @@ ASSUMPTIONS = [
     'a machine instance is reused for successive inputs, as echo_server does; a disagreement is re-checked on a fresh instance',
     'expression syntax is limited to what the renderer emits: single letters, [..]/[^..] of letters, ., |, (), *, +, ?, {m}, {m,}, {m,n} with n>=1',
     'bytes machines: wildcard = one byte when the expression has no multi-byte symbol; with one multi-byte symbol and '
-    'wildcards the exact oracle applies only to (byte-prefixes of) UTF-8 texts over {a,b,c,S,S\'}; expressions mixing a '
+    'wildcards the exact oracle applies only to expressions without alternation on (byte-prefixes of) UTF-8 texts over {a,b,c,S,S\'} '
+    '(elsewhere: weak predicate, counted as profile:mb+wild(weak)); expressions mixing a '
     'multi-byte symbol with another symbol are documented as not encodable (AssertionError at construction is accepted)',
     'trusted base: vp/regexref.py, self-tested at start against re.fullmatch on the shared syntax (accept and viability, str and bytes)',
 ]
@@ -380,6 +381,7 @@ def classify(case, p, inp, k, acc, last, exact):
     cuts = case.get('cuts') or []
     classes = ['mode:' + p.mode, 'profile:' + p.profile + ('' if exact else '(weak)' if p.profile != 'refuse' else '(built)'), 'outcome:' + outcome,
                'chunks:' + ('1' if not cuts else 'per-symbol' if len(cuts) == n - 1 else 'some')]
+    classes.append('len:' + ('0' if n == 0 else '1' if n == 1 else '2-5' if n <= 5 else '6-12' if n <= 12 else '13+'))
     if not acc and 1 <= last < k:
         classes.append('shape:viable-beyond-last-accepting')
     if k == 0 and last == 0 and n > 0:
@@ -553,79 +555,94 @@ def ast_strategy(lits, wild, neg_pool):
     return st.recursive(st.one_of(leaves), extend, max_leaves=6).map(trim).map(tame)
 
 
-def walk_input(draw, matcher, pool, maxlen):
-    """A string that mostly follows viable symbols of the reference, so that long viable prefixes,
-    acceptance and rejection after progress all occur."""
-    n = draw(st.integers(0, maxlen))
-    stay = draw(st.integers(5, 10))
-    i = matcher.start
-    out = []
-    for _ in range(n):
-        viable = [c for c in pool if matcher.step(i, c) != matcher.EMPTY]
-        if viable and draw(st.integers(1, 10)) <= stay:
-            c = draw(st.sampled_from(viable))
-        else:
-            c = draw(st.sampled_from(pool))
-        out.append(c)
-        i = matcher.step(i, c)
-    return out
+class Tape(object):
+    """Choices for the input and its chunking, drawn *before* the expression (Hypothesis tends to minimise the
+    tail of a draw sequence; this way a minimised tail gives a simple expression with a long input rather
+    than any expression with a one-symbol input)."""
 
+    def __init__(self, draw):
+        self.n = 0 if draw(st.integers(0, 24)) == 13 else draw(st.integers(1, 24))    # empty input ~4%
+        self.stay = draw(st.integers(5, 10))
+        self.picks = draw(st.lists(st.integers(0, 9999), min_size=self.n, max_size=self.n))
+        self.cut_kind = draw(st.sampled_from(['some', 'each', 'some', 'whole', 'some']))
+        self.cut_at = draw(st.lists(st.integers(0, 9999), min_size=1, max_size=6))
+        self.trunc = draw(st.sampled_from([0, 0, 0, 1, 2, 3]))
 
-def draw_cuts(draw, n):
-    kind = draw(st.sampled_from(['whole', 'each', 'some', 'some']))
-    if n < 2 or kind == 'whole':
-        return []
-    if kind == 'each':
-        return list(range(1, n))
-    return sorted(draw(st.lists(st.integers(1, n - 1), min_size=1, max_size=6, unique=True)))
+    def walk(self, matcher, pool, maxlen):
+        """A string that mostly follows viable symbols of the reference, so that long viable prefixes,
+        acceptance, and rejection after progress all occur."""
+        i = matcher.start
+        out = []
+        for r in self.picks[:maxlen]:
+            viable = [c for c in pool if matcher.step(i, c) != matcher.EMPTY]
+            src = viable if (viable and r % 10 < self.stay) else pool
+            c = src[(r // 10) % len(src)]
+            out.append(c)
+            i = matcher.step(i, c)
+        return out
+
+    def free(self, pool, maxlen):
+        return [pool[(r // 10) % len(pool)] for r in self.picks[:maxlen]]
+
+    def cuts(self, n):
+        if n < 2 or self.cut_kind == 'whole':
+            return []
+        if self.cut_kind == 'each':
+            return list(range(1, n))
+        return sorted(set(1 + r % (n - 1) for r in self.cut_at))
 
 
 @st.composite
 def random_cases(draw):
     kind = draw(st.sampled_from(['str', 'str', 'ascii', 'mb', 'mb', 'mb+wild', 'mb+wild', 'refuse', 'arbitrary']))
-    if kind == 'str':
-        ast = draw(ast_strategy(['a', 'b', 'π', '€'], True, ['a', 'b', 'π', '€']))
-        m = R.Matcher(ast)
-        text = ''.join(walk_input(draw, m, ['a', 'b', 'c', 'π', '€'], 20))
-        return {'mode': 'str', 'ast': ast, 'input': text, 'cuts': draw_cuts(draw, len(text))}
     mode = draw(st.sampled_from(['bytes', 'bytes', 'promote']))
-    if kind in ('ascii', 'mb') and draw(st.integers(0, 3)) == 0:
-        # the same machine class built from an fsm without an anything-else symbol: no wildcard edge anywhere
-        lits = ['a', 'b'] if kind == 'ascii' else [draw(st.sampled_from(MB_SYMS))]
-        ast = draw(ast_strategy(lits, False, []))
-        m = R.Matcher(R.lower_bytes(ast))
-        pool = [0x61, 0x62, 0x63, 0xCF] if kind == 'ascii' else sorted(set(lits[0].encode('utf-8') + sibling(lits[0]).encode('utf-8') + b'a'))
-        data = bytes(walk_input(draw, m, pool, 20))
-        return {'mode': 'bytes-fsm', 'ast': ast, 'input': common.hx(data), 'cuts': draw_cuts(draw, len(data))}
-    if kind == 'ascii':
-        ast = draw(ast_strategy(['a', 'b'], True, ['a', 'b']))
-        m = R.Matcher(R.lower_bytes(ast))
-        data = bytes(walk_input(draw, m, [0x61, 0x62, 0x63, 0x00, 0xFF, 0xCF, 0x80], 20))
+    via_fsm = draw(st.integers(0, 3)) == 3
+    sym = draw(st.sampled_from(MB_SYMS))
+    other = draw(st.sampled_from(['a', sibling(sym)]))
+    via_fsm = via_fsm and kind in ('ascii', 'mb')
+    if kind == 'str':
+        ast_st = ast_strategy(['a', 'b', 'π', '€'], True, ['a', 'b', 'π', '€'])
+    elif kind == 'ascii':
+        ast_st = ast_strategy(['a', 'b'], not via_fsm, ['a', 'b'])
     elif kind == 'mb':
-        sym = draw(st.sampled_from(MB_SYMS))
-        ast = draw(ast_strategy([sym], False, []))
-        m = R.Matcher(R.lower_bytes(ast))
-        data = bytes(walk_input(draw, m, sorted(set(sym.encode('utf-8') + sibling(sym).encode('utf-8') + b'a')), 24))
+        ast_st = ast_strategy([sym], False, [])
     elif kind in ('mb+wild', 'arbitrary'):
-        sym = draw(st.sampled_from(MB_SYMS))
-        ast = draw(ast_strategy([sym], True, [sym]))
+        ast_st = ast_strategy([sym], True, [sym])
+    else:
+        ast_st = ast_strategy([sym, other], draw(st.booleans()), [sym, other])
+    if draw(st.booleans()):                      # either the expression or the input is drawn last (see Tape)
+        ast = draw(ast_st)
+        tape = Tape(draw)
+    else:
+        tape = Tape(draw)
+        ast = draw(ast_st)
+    if kind == 'str':
+        text = ''.join(tape.walk(R.Matcher(ast), ['a', 'b', 'c', 'π', '€'], 20))
+        return {'mode': 'str', 'ast': ast, 'input': text, 'cuts': tape.cuts(len(text))}
+    if via_fsm:
+        # the same machine class built from an fsm without an anything-else symbol: no wildcard edge anywhere
+        pool = [0x61, 0x62, 0x63, 0xCF] if kind == 'ascii' else sorted(set(sym.encode('utf-8') + sibling(sym).encode('utf-8') + b'a'))
+        data = bytes(tape.walk(R.Matcher(R.lower_bytes(ast)), pool, 20))
+        return {'mode': 'bytes-fsm', 'ast': ast, 'input': common.hx(data), 'cuts': tape.cuts(len(data))}
+    if kind == 'ascii':
+        data = bytes(tape.walk(R.Matcher(R.lower_bytes(ast)), [0x61, 0x62, 0x63, 0x00, 0xFF, 0xCF, 0x80], 20))
+    elif kind == 'mb':
+        pool = sorted(set(sym.encode('utf-8') + sibling(sym).encode('utf-8') + b'a'))
+        data = bytes(tape.walk(R.Matcher(R.lower_bytes(ast)), pool, 24))
+    elif kind in ('mb+wild', 'arbitrary'):
         if not R.has_wildcard(ast):
-            ast = ['cat', draw(st.sampled_from([['dot'], ['cls', [sym], True], ['star', ['dot']], ['star', ['cls', [sym], True]]])), ast]
-        uni = ['a', 'b', 'c', sym, sibling(sym)]
+            ast = ['cat', [['dot'], ['cls', [sym], True], ['star', ['dot']], ['star', ['cls', [sym], True]]][tape.stay % 4], ast]
         if kind == 'mb+wild':
-            text = ''.join(walk_input(draw, R.Matcher(ast), uni, 12))
+            text = ''.join(tape.walk(R.Matcher(ast), ['a', 'b', 'c', sym, sibling(sym)], 12))
             data = text.encode('utf-8')
-            data = data[:len(data) - draw(st.sampled_from([0, 0, 0, 1, 2]))] if data else data
+            data = data[:max(1, len(data) - tape.trunc)] if data else data
         else:       # arbitrary bytes: weak predicate only (unless it happens to be a text prefix)
-            data = bytes(draw(st.lists(st.sampled_from(sorted(set(sym.encode('utf-8') + '€é'.encode('utf-8') + b'ab'))), max_size=12)))
+            data = bytes(tape.free(sorted(set(sym.encode('utf-8') + '€é'.encode('utf-8') + b'ab')), 12))
     else:           # refuse: a multi-byte symbol and a second symbol
-        sym = draw(st.sampled_from(MB_SYMS))
-        other = draw(st.sampled_from(['a', sibling(sym)]))
-        ast = draw(ast_strategy([sym, other], draw(st.booleans()), [sym, other]))
         if len(R.symbols(ast)) < 2:
             ast = ['cat', ['lit', sym], ['cat', ['lit', other], ast]]
-        data = bytes(draw(st.lists(st.sampled_from(sorted(set(sym.encode('utf-8') + b'a'))), max_size=6)))
-    return {'mode': mode, 'ast': ast, 'input': common.hx(data), 'cuts': draw_cuts(draw, len(data))}
+        data = bytes(tape.free(sorted(set(sym.encode('utf-8') + b'a')), 6))
+    return {'mode': mode, 'ast': ast, 'input': common.hx(data), 'cuts': tape.cuts(len(data))}
 
 
 def shard_random(job):
